@@ -20,7 +20,7 @@ type goTranslator struct {
 	why   string
 	nsnap int
 	inOld bool
-	tenv map[string]Val
+	tenv  map[string]Val
 }
 
 func (g *goTranslator) failf(format string, a ...interface{}) (string, bool) {
@@ -344,6 +344,47 @@ func (g *goTranslator) tr(x Expr) (string, bool) {
 			}
 			if pd == nil {
 				pd = g.ex.Prog.FindPred(id.Name)
+			}
+			if pd != nil && pd.Kind == "ufun" {
+				// a function declared as the value of a call outside the module (`extern attr`): make that call
+				for _, pc := range g.ex.externContracts() {
+					for key, ufs := range pc.ExternAttr {
+						for ri, uf := range ufs {
+							if uf != pd.Name {
+								continue
+							}
+							var parts []string
+							for _, a := range n.Args {
+								s, ok := g.trRaw(a)
+								if !ok {
+									return "", false
+								}
+								parts = append(parts, s)
+							}
+							if len(parts) == 0 {
+								return g.failf("extern attr without receiver")
+							}
+							call := fmt.Sprintf("%s.%s(%s)", parts[0], key[strings.LastIndex(key, ".")+1:], strings.Join(parts[1:], ", "))
+							if len(ufs) == 1 {
+								return g.intWrap(call, x), true
+							}
+							var lhs []string
+							for i := range ufs {
+								if i == ri {
+									lhs = append(lhs, "v_")
+								} else {
+									lhs = append(lhs, "_")
+								}
+							}
+							t := g.typeOf(x)
+							if t == nil {
+								return g.failf("untyped extern attr")
+							}
+							return g.intWrap(fmt.Sprintf("func() %s { %s := %s; return v_ }()", g.cz.typeStr(t), strings.Join(lhs, ", "), call), x), true
+						}
+					}
+				}
+				return g.failf("uninterpreted function %s has no Go counterpart", pd.Name)
 			}
 			if pd != nil {
 				saved, savedT := g.subst, g.tenv
